@@ -171,6 +171,19 @@ func TestC04(t *testing.T) {
 			}, "scenario:op-in-flight-when-lock-taken")
 		}
 	}
+	// scenario tier: a request parked between the owner lookup and the KV barrier while the owner leaves
+	if p := opAcceptedJustBeforeOwnerLeaves(); p != "" {
+		if len(p) > 13 && p[:13] == "precondition:" {
+			rec.Inconclusive("scenario-precondition")
+			t.Logf("accepted-before-leave scenario: %s", p)
+		} else {
+			rec.Fail(t, "operation-result-disagrees-with-its-effect", map[string]any{"schedule": "ring {1<<44, 2<<44, 3<<44}; a Put on a key owned by 2<<44 is parked inside 2<<44 after the owner lookup and before the KV barrier (at the per-request logger derivation); 2<<44 leaves gracefully; the Put resumes", "problem": p}, "%s", p)
+		}
+	} else {
+		rec.Case(true, "scenario:accepted-before-leave", func() any {
+			return map[string]any{"scenario": "Put parked between owner lookup and KV barrier while the owner leaves gracefully"}
+		}, "scenario:op-accepted-just-before-owner-leaves")
+	}
 	// regression tier: the minimal schedule of a non-retryable failure found by the thorough tier
 	if p := joiningNodeKVWindow(); p != "" {
 		if len(p) > 13 && p[:13] == "precondition:" {
